@@ -1,10 +1,69 @@
 """C26 Client timestamps and wall-clock jumps cannot crash subscription processing (E1)."""
-from ..panics import run_e1
+import re, json
+from ..panics import run_e1, stable_lit
+from ..facts import fmt_lit, fmt_sym
+from .C39 import make_table_auto
 
 ENTRY = (r'^server::session::Session::(expire_stale_publish_requests|tick_subscriptions)$'
          r'|^server::subscriptions::subscriptions::Subscriptions::(tick|expire_stale_publish_requests)$'
          r'|^server::subscriptions::subscription::Subscription::tick$|^server::subscriptions::monitored_item::MonitoredItem::tick$')
 STOP = r'AddressSpace::|::get_attribute|Variable::value|callbacks::'
+
+
+GATE = re.compile(r'^PartialOrd::gt\(&.*signed_duration_since\(\(\*now.*request_header\.timestamp.*\), &Duration::from_millis\((.*)\)\) == True$')
+
+
+def check_timeout_gate(ctx, rule='E2-timeout-gate'):
+    """BadTimeout is produced, and the request dropped from the queue, only under `now - request timestamp > timeout`"""
+    db, r = ctx.db, ctx.r
+    bs = db.find_bodies(r'Subscriptions::expire_stale_publish_requests::\{closure#0\}$')
+    if not bs:
+        r.lost(rule, 'expire:closure', 'retain closure of expire_stale_publish_requests not found'); return
+    b = bs[0]; F = ctx.facts(b)
+    sites = []
+    for bi, blk in enumerate(b.blocks):
+        for si, st in enumerate(blk['s']):
+            if 'BadTimeout' in json.dumps(st):
+                sites.append(('BadTimeout', bi, si))
+            # `false` returned from the retain predicate = the request leaves the queue
+            if st[0] == '=' and st[1] == [0, []] and st[2][0] == 'use' and st[2][1][0] == 'k' and st[2][1][1] in ('false', '0') and st[2][1][2] == 'bool':
+                sites.append(('drop-from-queue', bi, si))
+        if 'BadTimeout' in json.dumps(blk['t'][:3]):
+            sites.append(('BadTimeout', bi, None))
+    if not any(k == 'BadTimeout' for k, _, _ in sites) or not any(k == 'drop-from-queue' for k, _, _ in sites):
+        r.lost(rule, 'expire:sites', 'BadTimeout construction / `false` result not found in the retain closure'); return
+    n = 0
+    for kind, bi, si in sites:
+        n += 1
+        key = 'expire:%s#%d' % (kind, n)
+        hit = None
+        for lit, e in F.literals_at(bi, si):
+            m = GATE.match(fmt_lit(b, lit))
+            if m:
+                hit = (lit, m.group(1)); break
+        if not hit:
+            r.fail(rule, key, '%s is not dominated by `now.signed_duration_since(request timestamp) > timeout`: a queued publish request '
+                   'could be answered BadTimeout before its timeout elapsed' % kind, loc=b.loc)
+            continue
+        r.ok(rule, key, '%s only under `%s`' % (kind, fmt_lit(b, hit[0])[:160]), loc=b.loc)
+    # the timeout operand: every definition is the request's timeout hint or the server's publish request timeout
+    srcs = []
+    for bi, blk in enumerate(b.blocks):
+        t = blk['t']
+        if t[0] == 'call' and t[1][0] == 'fn' and t[1][1].endswith('Duration::from_millis'):
+            a = t[2][0]
+            if a[0] in ('mv', 'cp') and not a[1][1]:
+                for d in b.defs().get(a[1][0], []):
+                    if d[0] == 'stmt':
+                        srcs.append(fmt_sym(b, F.sym_rvalue(d[3], 0, d[1])))
+                    else:
+                        srcs.append(str(d[0]))
+    bad = [x for x in srcs if not re.search(r'timeout_hint as u64|publish_request_timeout.* as u64', x)]
+    if not srcs or bad:
+        r.fail(rule, 'expire:timeout-operand', 'the timeout compared with the elapsed time is not the request timeout hint / server publish timeout: %s' % (bad or srcs), loc=b.loc)
+    else:
+        r.ok(rule, 'expire:timeout-operand', 'timeout operand is one of: ' + '; '.join(sorted(set(srcs))), loc=b.loc)
+    r.count('timeout_gate_sites', n)
 
 
 def run(ctx):
@@ -13,7 +72,9 @@ def run(ctx):
                      '(Session::expire_stale_publish_requests, Session::tick_subscriptions, Subscriptions::tick, Subscription::tick, '
                      'MonitoredItem::tick; address-space reads excluded, they belong to C32/C33) is discharged by a guard or '
                      'dispositioned. Time arithmetic on client-supplied timestamps and on `now` is in the panicking-API table '
-                     '(chrono/Duration operators, to_std().unwrap()). "BadTimeout only after the timeout" is timing: not decided.')
+                     '(chrono/Duration operators, to_std().unwrap()). The BadTimeout clause is decided only in its structural part: the fault is built, and the request leaves the queue, only on the branch where now.signed_duration_since(request timestamp) (saturated at zero) exceeds a timeout that is the request hint or the server limit; clock behaviour itself is not modelled.')
     r.rule_text = 'E1 panic-site inventory over the subscription tick path'
-    run_e1(ctx, ENTRY, stop_pattern=STOP)
+    run_e1(ctx, ENTRY, stop_pattern=STOP, extra_auto=make_table_auto(ctx))
+    check_timeout_gate(ctx)
+    r.floor('E2-timeout-gate', 'timeout_gate_sites', r.counts.get('timeout_gate_sites', 0), 2)
     r.floor('E1-panic', 'reachable_bodies', r.counts.get('reachable_bodies', 0), 20)
